@@ -10,6 +10,7 @@ import (
 	"os"
 	"os/exec"
 	"path/filepath"
+	"runtime/debug"
 	"sort"
 	"strings"
 	"time"
@@ -285,7 +286,7 @@ func RunLeg[C any](c *Ctx, spec Leg[C]) *LegResult {
 			return nil
 		}
 		l := c.NewLeg(spec.Name, spec.Kind, spec.Rule)
-		outs := spec.Check(c, []C{one})
+		outs := safeCheck(c, spec.Check, []C{one})
 		for _, o := range outs {
 			l.Count(o.Key, o.Nontrivial)
 			if o.Fail != nil {
@@ -311,7 +312,7 @@ func RunLeg[C any](c *Ctx, spec Leg[C]) *LegResult {
 		if len(all) == 0 {
 			return
 		}
-		outs := spec.Check(c, all)
+		outs := safeCheck(c, spec.Check, all)
 		for i, o := range outs {
 			l.Count(o.Key, o.Nontrivial)
 			for _, b := range o.Buckets {
@@ -341,4 +342,36 @@ func RunLeg[C any](c *Ctx, spec Leg[C]) *LegResult {
 // DriverFailure builds the failure recorded when the Lean driver itself cannot be run.
 func DriverFailure(err error) *Failure {
 	return &Failure{Kind: "correspondence-break", Key: "driver-error", Summary: "the Lean driver could not evaluate the model: " + err.Error()}
+}
+
+// safeCheck runs a batch check; if the code under test panics inside it (outside any recover of the
+// leg), the batch is re-run case by case to attribute the panic to a case, which is then reported as a
+// violation with that case as replay (a panic of the library is never a harness crash).
+func safeCheck[C any](c *Ctx, check func(c *Ctx, cases []C) []Outcome, cases []C) (outs []Outcome) {
+	run := func(cs []C) (o []Outcome, p any, stack string) {
+		defer func() {
+			if r := recover(); r != nil {
+				p, stack = r, string(debug.Stack())
+			}
+		}()
+		return check(c, cs), nil, ""
+	}
+	o, p, _ := run(cases)
+	if p == nil {
+		return o
+	}
+	outs = make([]Outcome, len(cases))
+	for i := range cases {
+		oi, pi, st := run(cases[i : i+1])
+		if pi != nil {
+			if len(st) > 1500 {
+				st = st[:1500]
+			}
+			outs[i] = Outcome{Key: fmt.Sprintf("panic-case-%d", i), Nontrivial: true, Fail: &Failure{Kind: "impl-violation", Key: "panic",
+				Summary: fmt.Sprintf("the code under test panicked while this case was checked: %v", pi), Expected: "no panic", Got: fmt.Sprint(pi) + "\n" + st}}
+		} else if len(oi) == 1 {
+			outs[i] = oi[0]
+		}
+	}
+	return outs
 }
